@@ -104,10 +104,20 @@ class Ctx:
         return self.add(rule, fn_or_instance, node, None, "UNDECIDED: " + (undecided_msg or "the construct was rewritten into a shape this rule does not recognise; it abstains instead of guessing"), **kw)
 
     def floor(self, rule: str, matched: int, minimum: int) -> None:
-        """A rule that matched fewer constructs than confirmed by hand is an analysis error."""
+        """A rule that matches fewer constructs than were confirmed by hand on the reference tree no longer sees all of
+        its constructs: that is recorded as an UNDECIDED obligation (never a silent vacuous pass, never an alarm)."""
         self.floors.append((rule, matched, minimum))
         if matched < minimum:
-            raise AnalysisError(f"{self.prop}.{rule}: matched {matched} instance(s), floor is {minimum} - the rule no longer sees its constructs")
+            self.add(rule, f"{self.prop}.{rule}", "", None, f"UNDECIDED: matched {matched} instance(s) where the reference tree has {minimum}: the rule no longer sees all of its constructs", key="floor")
+
+    def run(self, rule_fn, *args) -> None:
+        """Run one rule; a non-fatal AnalysisError (private helper / internal construct not found) makes that rule abstain."""
+        try:
+            rule_fn(self, *args)
+        except AnalysisError as e:
+            if e.fatal:
+                raise
+            self.add(getattr(rule_fn, "__name__", "rule"), f"{self.prop}.{getattr(rule_fn, '__name__', 'rule')}", "", None, f"UNDECIDED: {e}", key="abstained")
 
     def note(self, text: str) -> None:
         self.notes.append(text)
